@@ -122,14 +122,14 @@ void threshold_binary(
     {
         detail::threshold_impl<source_channel_t, result_channel_t>(src_view, dst_view,
             [threshold_value, max_value](source_channel_t px) -> result_channel_t {
-                return px > threshold_value ? max_value : 0;
+                return px > threshold_value ? max_value : result_channel_t(0);
             });
     }
     else
     {
         detail::threshold_impl<source_channel_t, result_channel_t>(src_view, dst_view,
             [threshold_value, max_value](source_channel_t px) -> result_channel_t {
-                return px > threshold_value ? 0 : max_value;
+                return px > threshold_value ? result_channel_t(0) : max_value;
             });
     }
 }
@@ -155,7 +155,8 @@ void threshold_binary(
     //deciding output channel type and creating functor
     using result_channel_t = typename channel_type<DstView>::type;
 
-    result_channel_t max_value = (std::numeric_limits<result_channel_t>::max)();
+    // (channel_traits, not numeric_limits: float32_t is a class type without a numeric_limits specialisation, its maximum is 1)
+    result_channel_t max_value = channel_traits<result_channel_t>::max_value();
     threshold_binary(src_view, dst_view, threshold_value, max_value, direction);
 }
 
@@ -191,14 +192,14 @@ void threshold_truncate(
         {
             detail::threshold_impl<source_channel_t, result_channel_t>(src_view, dst_view,
                 [threshold_value](source_channel_t px) -> result_channel_t {
-                    return px > threshold_value ? threshold_value : px;
+                    return px > threshold_value ? threshold_value : static_cast<result_channel_t>(px);
                 });
         }
         else
         {
             detail::threshold_impl<source_channel_t, result_channel_t>(src_view, dst_view,
                 [threshold_value](source_channel_t px) -> result_channel_t {
-                    return px > threshold_value ? px : threshold_value;
+                    return px > threshold_value ? static_cast<result_channel_t>(px) : threshold_value;
                 });
         }
     }
@@ -208,14 +209,14 @@ void threshold_truncate(
         {
             detail::threshold_impl<source_channel_t, result_channel_t>(src_view, dst_view,
                 [threshold_value](source_channel_t px) -> result_channel_t {
-                    return px > threshold_value ? px : 0;
+                    return px > threshold_value ? static_cast<result_channel_t>(px) : result_channel_t(0);
                 });
         }
         else
         {
             detail::threshold_impl<source_channel_t, result_channel_t>(src_view, dst_view,
                 [threshold_value](source_channel_t px) -> result_channel_t {
-                    return px > threshold_value ? 0 : px;
+                    return px > threshold_value ? result_channel_t(0) : static_cast<result_channel_t>(px);
                 });
         }
     }
